@@ -237,6 +237,12 @@ fn main() {
                 if let Some(n) = s(item, "rename_fn") {
                     sig.ident = Ident::new(&n, Span::call_site());
                 }
+                if let Some(r) = s(item, "ret_override") {
+                    // R9: `impl Iterator` return types become the prelude iterator type named by the unit
+                    let ty: Type = syn::parse_str(&r).unwrap_or_else(|e| fail("config", format!("{}: {}", name, e)));
+                    sig.output = ReturnType::Type(Default::default(), Box::new(ty));
+                    fired.push("R9-lazy-return-type".into());
+                }
                 let marker_name = s(item, "marker_name").unwrap_or_else(|| sig.ident.to_string());
                 let contract_only = item.get("contract_only").and_then(|x| x.as_bool()).unwrap_or(false);
                 if contract_only {
